@@ -300,4 +300,26 @@ pub proof fn rsum_multiset<T>(a: Seq<T>, b: Seq<T>, f: spec_fn(T) -> real)
     }
 }
 
+
+pub proof fn isum_scale(n: int, f: spec_fn(int) -> real, g: spec_fn(int) -> real, c: real)
+    requires forall|k: int| 0 <= k < n ==> #[trigger] g(k) == c * f(k)
+    ensures isum(n, g) == c * isum(n, f)
+    decreases n
+{
+    if n > 0 {
+        isum_scale(n - 1, f, g, c);
+        let a = isum(n - 1, f); let b = f(n - 1);
+        assert(c * (a + b) == c * a + c * b) by(nonlinear_arith);
+    } else {
+        assert(c * 0real == 0real) by(nonlinear_arith);
+    }
+}
+pub proof fn isum_nonneg(n: int, f: spec_fn(int) -> real)
+    requires forall|k: int| 0 <= k < n ==> #[trigger] f(k) >= 0real
+    ensures isum(n, f) >= 0real
+    decreases n
+{
+    if n > 0 { isum_nonneg(n - 1, f); }
+}
+
 } // verus!
